@@ -95,3 +95,222 @@ Example C09_ex_foreign_attached :
   verify_all toy_crypto AnyKnownMajor [ed_pub toy_crypto (repeat x07 64)] (S_encode_attached toy_crypto p)
   = Ok (ed_pub toy_crypto (repeat x07 64), [x68; x69; x21]).
 Proof. vm_compute. reflexivity. Qed.
+
+From SP Require Import GoLang GoLang2 GoAst GoAstProofs GoAstProofs2 GoAstProofs4b GoAstProofs7c GoAstOpen GoAstRecv GoEndToEndGate.
+From SP Require GoEndToEndAuth GoEndToEndSign.
+From Coq Require String.
+Import String.StringSyntax.
+(* ---------- paste into props/C09.v (after `End C09.`) ----------
+   SOURCE END TO END: the acceptance theorems composed with the receiver source ties of proofs/GoAstProofs7c.v: the TRANSLATED
+   entry points of /repo (terms generated on this run from the Go syntax trees), run by the evaluator of model/GoLang2.v on the
+   bytes of ANY message of the general specification encoders, return success with exactly the specified plaintext and
+   attribution (or the explicit foreign-box / identifier-collision witness); the streaming constructors return reader objects
+   which, drained by the translated getNextChunk, release exactly that plaintext and io.EOF.  Each closed by `exact` of a lemma
+   of proofs/GoEndToEndGate.v.  Additional imports needed in props/C09.v:
+     From SP Require Import GoLang GoLang2 GoAst GoAstProofs GoAstProofs2 GoAstProofs4b GoAstProofs7c GoAstOpen GoAstRecv GoEndToEndGate.
+     From SP Require GoEndToEndAuth GoEndToEndSign.
+     From Coq Require String.  Import String.StringSyntax.       (string literals; do NOT `Import String`; the block below
+     opens string_scope locally, as the SOURCE TIE blocks of props/C01.v ... do) *)
+
+Local Open Scope string_scope.
+Theorem C09_source_end_to_end_Verify_accepts_spec (c : crypto) (Hc : crypto_ok c) (p : S_sig) (kr : sigring) (vd : validator) (VV KR : gval) :
+  sig_params_ok p ->
+  (len (mp_encode (S_sig_header_list c p S_mode_attached)) < 4294967296)%N ->
+  admits vd (ss_major p) (ss_minor p) -> In (ed_pub c (ss_sk p)) kr ->
+  fst (run_func2 (ext_verify c vd kr) f_saltpack_Verify [VV; VBytes (S_encode_attached c p); KR])
+  = ORet [g_spk (ed_pub c (ss_sk p)); VBytes (List.concat (ss_chunks p)); VNil] /\
+  verify_class (fst (run_func2 (ext_verify c vd kr) f_saltpack_Verify [VV; VBytes (S_encode_attached c p); KR]))
+  = Ok (ed_pub c (ss_sk p), List.concat (ss_chunks p)).
+Proof. exact (go_Verify_accepts_spec c Hc p kr vd VV KR). Qed.
+
+Theorem C09_source_end_to_end_NewVerifyStream_accepts_spec (c : crypto) (Hc : crypto_ok c) (p : S_sig) (kr : sigring) (vd : validator) (VV KR rd : gval) :
+  sig_params_ok p ->
+  (len (mp_encode (S_sig_header_list c p S_mode_attached)) < 4294967296)%N ->
+  admits vd (ss_major p) (ss_minor p) -> In (ed_pub c (ss_sk p)) kr ->
+  rdr_bytes rd = Some (S_encode_attached c p) ->
+  exists h hh rest chunks k,
+    fst (run_func2 (ext_NVS c vd kr) f_saltpack_NewVerifyStream [VV; rd; KR])
+    = ORet [g_spk (ed_pub c (ss_sk p)); g_cr_new (g_vs_key h hh (ed_pub c (ss_sk p)) (g_mps_raw rest 1)); VNil] /\
+    verify_read_header c vd mt_attached (S_encode_attached c p) = Ok (h, hh, rest) /\
+    verify_loop c (S (List.length rest)) (h_version h) (ed_pub c (ss_sk p)) hh 0 rest [] = mkOut chunks EOF /\
+    GoEndToEndSign.vs_recode (g_vs_key h hh (ed_pub c (ss_sk p)) (g_mps_raw rest 1))
+    = Some (g_vs h (ed_pub c (ss_sk p)) hh (g_mps rest 0)) /\
+    GoEndToEndSign.go_vs_drain c k (g_vs h (ed_pub c (ss_sk p)) hh (g_mps rest 0)) [] = Some (chunks, VErr "io.EOF" []) /\
+    List.concat chunks = List.concat (ss_chunks p) /\
+    ext_verify c vd kr "NewVerifyStream" [VV; rd; KR]
+    = Some [g_spk (ed_pub c (ss_sk p)); g_stream (mkOut chunks EOF); VNil].
+Proof. exact (go_NewVerifyStream_accepts_spec c Hc p kr vd VV KR rd). Qed.
+
+Theorem C09_source_end_to_end_VerifyDetached_accepts_spec (c : crypto) (Hc : crypto_ok c) (p : S_sig) (kr : sigring) (vd : validator) (VV KR : gval) :
+  (ss_major p = 1 \/ ss_major p = 2)%Z -> (0 <= ss_minor p <= 127)%Z ->
+  (len (ss_nonce p) < 4294967296)%N -> extras_ok (ss_extra_hdr p) ->
+  (len (mp_encode (S_sig_header_list c p S_mode_detached)) < 4294967296)%N ->
+  admits vd (ss_major p) (ss_minor p) -> In (ed_pub c (ss_sk p)) kr ->
+  fst (run_func2 (ext_vdet2 c vd kr) f_saltpack_VerifyDetached [VV; VBytes (ss_msg p); VBytes (S_encode_detached c p); KR])
+  = ORet [g_spk (ed_pub c (ss_sk p)); VNil] /\
+  fst (run_func2 (ext_vdet c vd kr) f_saltpack_VerifyDetachedReader
+         [VV; g_rdr (ss_msg p) None; VBytes (S_encode_detached c p); KR])
+  = ORet [g_spk (ed_pub c (ss_sk p)); VNil] /\
+  vd_class (fst (run_func2 (ext_vdet2 c vd kr) f_saltpack_VerifyDetached
+                   [VV; VBytes (ss_msg p); VBytes (S_encode_detached c p); KR]))
+  = Ok (ed_pub c (ss_sk p)).
+Proof. exact (go_VerifyDetached_accepts_spec c Hc p kr vd VV KR). Qed.
+
+Theorem C09_source_end_to_end_Open_accepts_spec (c : crypto) (Hc : crypto_ok c) (pm : bytes -> gval) (p : S_enc) (sk : bytes) (hide : bool) (i : nat) (vd : validator) (VV RING rd : gval) :
+  enc_params_ok c p -> admits vd (se_major p) (se_minor p) ->
+  nth_error (se_rcpts p) i = Some (dh_pub c sk, hide) ->
+  rdr_bytes rd = Some (S_encode_encryption c p) ->
+  let kr := mkRing [(sk, dh_pub c sk)] None in
+  (exists (m : mki) (chunks : list bytes) (st : dec_state) (rest : bytes),
+      fst (run_func2 (ext_open c pm vd kr) f_saltpack_Open [VV; VBytes (S_encode_encryption c p); RING])
+      = ORet [g_mki m (sk, dh_pub c sk); VBytes (List.concat (se_chunks p)); VNil] /\
+      open_class (fst (run_func2 (ext_open c pm vd kr) f_saltpack_Open [VV; VBytes (S_encode_encryption c p); RING]))
+      = Ok (m, List.concat (se_chunks p)) /\
+      fst (run_func2 (ext_nds c pm vd kr) f_saltpack_NewDecryptStream [VV; rd; RING])
+      = ORet [g_mki m (sk, dh_pub c sk);
+              g_cr_new (g_ds_done VV RING (g_mps_raw rest 1) VNil m st (sk, dh_pub c sk)); VNil] /\
+      decrypt_loop c (S (List.length rest)) st 0 rest [] = mkOut chunks EOF /\
+      List.concat chunks = List.concat (se_chunks p) /\
+      mki_sender m = dh_pub c (match se_sender p with Some s => s | None => se_eph p end) /\
+      mki_sender_anon m = (match se_sender p with Some _ => false | None => true end) /\
+      mki_receiver m = dh_pub c sk /\ mki_receiver_anon m = hide)
+  \/ S_foreign_box_opens c p sk.
+Proof. exact (go_Open_accepts_spec c Hc pm p sk hide i vd VV RING rd). Qed.
+
+Theorem C09_source_end_to_end_SigncryptOpen_accepts_spec_box (c : crypto) (Hc : crypto_ok c) (p : S_sc) (sk : bytes) (i : nat) (signers : sigring) (rv : resolver)
+        (KR RV rd : gval) :
+  sc_params_ok c p ->
+  nth_error (sc_rcpts p) i = Some (S_BoxR (dh_pub c sk)) ->
+  (forall s, sc_signer p = Some s -> In (ed_pub c s) signers) ->
+  rdr_bytes rd = Some (S_encode_signcryption c p) ->
+  let kr := mkRing [(sk, dh_pub c sk)] None in
+  let sg := option_map (ed_pub c) (sc_signer p) in
+  (fst (run_func2 (ext_scopen c kr signers rv) f_saltpack_SigncryptOpen [VBytes (S_encode_signcryption c p); KR; RV])
+   = ORet [g_signer sg; VBytes (List.concat (sc_chunks p)); VNil] /\
+   scopen_class (fst (run_func2 (ext_scopen c kr signers rv) f_saltpack_SigncryptOpen
+                        [VBytes (S_encode_signcryption c p); KR; RV]))
+   = Ok (sg, List.concat (sc_chunks p)) /\
+   exists (chunks : list bytes) (pkey hh rest : bytes),
+     fst (run_func2 (ext_nsos c kr signers rv) f_saltpack_NewSigncryptOpenStream [rd; KR; RV])
+     = ORet [g_signer sg; g_cr_new (g_sos_done (g_mps_raw rest 1) KR RV pkey hh sg); VNil] /\
+     sc_open_loop c (S (List.length rest)) pkey sg hh 0 rest [] = mkOut chunks EOF /\
+     List.concat chunks = List.concat (sc_chunks p))
+  \/ S_identifier_collision c p sk i.
+Proof. exact (go_SigncryptOpen_accepts_spec_box c Hc p sk i signers rv KR RV rd). Qed.
+
+Theorem C09_source_end_to_end_SigncryptOpen_accepts_spec_sym (c : crypto) (Hc : crypto_ok c) (p : S_sc) (i : nat) (key ident : bytes) (rsl : list (bytes * bytes))
+        (signers : sigring) (KR RV rd : gval) :
+  sc_params_ok c p ->
+  nth_error (sc_rcpts p) i = Some (S_SymR key ident) ->
+  resolve rsl ident = Some key ->
+  S_resolver_genuine c rsl p ->
+  (forall s, sc_signer p = Some s -> In (ed_pub c s) signers) ->
+  rdr_bytes rd = Some (S_encode_signcryption c p) ->
+  let kr := mkRing [] None in
+  let sg := option_map (ed_pub c) (sc_signer p) in
+  fst (run_func2 (ext_scopen c kr signers (Some rsl)) f_saltpack_SigncryptOpen [VBytes (S_encode_signcryption c p); KR; RV])
+  = ORet [g_signer sg; VBytes (List.concat (sc_chunks p)); VNil] /\
+  scopen_class (fst (run_func2 (ext_scopen c kr signers (Some rsl)) f_saltpack_SigncryptOpen
+                       [VBytes (S_encode_signcryption c p); KR; RV]))
+  = Ok (sg, List.concat (sc_chunks p)) /\
+  exists (chunks : list bytes) (pkey hh rest : bytes),
+    fst (run_func2 (ext_nsos c kr signers (Some rsl)) f_saltpack_NewSigncryptOpenStream [rd; KR; RV])
+    = ORet [g_signer sg; g_cr_new (g_sos_done (g_mps_raw rest 1) KR RV pkey hh sg); VNil] /\
+    sc_open_loop c (S (List.length rest)) pkey sg hh 0 rest [] = mkOut chunks EOF /\
+    List.concat chunks = List.concat (sc_chunks p).
+Proof. exact (go_SigncryptOpen_accepts_spec_sym c Hc p i key ident rsl signers KR RV rd). Qed.
+
+Theorem C09_source_end_to_end_NewDecryptStream_drain_of_model (c : crypto) (pm : bytes -> gval) (vd : validator) (kr : keyring) (VV RING rd : gval)
+        (wire : bytes) (m : mki) (chunks : list bytes) :
+  open_stream c vd kr wire = Ok (m, mkOut chunks EOF) ->
+  rdr_bytes rd = Some wire ->
+  exists (k : bytes * bytes) (obj : gval),
+    In k (kr_keys kr) /\ snd k = mki_receiver m /\
+    fst (run_func2 (ext_nds c pm vd kr) f_saltpack_NewDecryptStream [VV; rd; RING]) = ORet [g_mki m k; g_cr_new obj; VNil] /\
+    forall F, (List.length wire < F)%nat -> (N.of_nat F <= 18446744073709551616)%N ->
+      exists tl, (tl = [] \/ tl = [[]]) /\
+        GoEndToEndAuth.go_drain (ext_chunk c TBytes) f_saltpack_decryptStream_getNextChunk "ds" F obj
+        = ((chunks ++ tl)%list, Some (VErr "io.EOF" [])).
+Proof. exact (go_NewDecryptStream_drain_of_model c pm vd kr VV RING rd wire m chunks). Qed.
+
+Theorem C09_source_end_to_end_NewSigncryptOpenStream_drain_of_model (c : crypto) (kr : keyring) (signers : sigring) (rv : resolver) (KR RV rd : gval)
+        (wire : bytes) (sg : option bytes) (chunks : list bytes) :
+  signcrypt_open_stream c kr signers rv wire = Ok (sg, mkOut chunks EOF) ->
+  rdr_bytes rd = Some wire ->
+  exists obj : gval,
+    fst (run_func2 (ext_nsos c kr signers rv) f_saltpack_NewSigncryptOpenStream [rd; KR; RV])
+    = ORet [g_signer sg; g_cr_new obj; VNil] /\
+    forall F, (List.length wire < F)%nat -> (N.of_nat F <= 18446744073709551616)%N ->
+      exists tl, (tl = [] \/ tl = [[]]) /\
+        GoEndToEndAuth.go_drain (ext_chunk c TSigncryptionBlock) f_saltpack_signcryptOpenStream_getNextChunk "sos" F obj
+        = ((chunks ++ tl)%list, Some (VErr "io.EOF" [])).
+Proof. exact (go_NewSigncryptOpenStream_drain_of_model c kr signers rv KR RV rd wire sg chunks). Qed.
+
+Theorem C09_source_end_to_end_NewDecryptStream_drain_accepts_spec (c : crypto) (Hc : crypto_ok c) (pm : bytes -> gval) (p : S_enc) (sk : bytes) (hide : bool) (i : nat)
+        (vd : validator) (VV RING rd : gval) :
+  enc_params_ok c p -> admits vd (se_major p) (se_minor p) ->
+  nth_error (se_rcpts p) i = Some (dh_pub c sk, hide) ->
+  rdr_bytes rd = Some (S_encode_encryption c p) ->
+  let kr := mkRing [(sk, dh_pub c sk)] None in
+  (exists (m : mki) (obj : gval),
+      fst (run_func2 (ext_nds c pm vd kr) f_saltpack_NewDecryptStream [VV; rd; RING])
+      = ORet [g_mki m (sk, dh_pub c sk); g_cr_new obj; VNil] /\
+      mki_sender m = dh_pub c (match se_sender p with Some s => s | None => se_eph p end) /\
+      mki_sender_anon m = (match se_sender p with Some _ => false | None => true end) /\
+      mki_receiver m = dh_pub c sk /\ mki_receiver_anon m = hide /\
+      forall F, (List.length (S_encode_encryption c p) < F)%nat -> (N.of_nat F <= 18446744073709551616)%N ->
+        let d := GoEndToEndAuth.go_drain (ext_chunk c TBytes) f_saltpack_decryptStream_getNextChunk "ds" F obj in
+        List.concat (fst d) = List.concat (se_chunks p) /\ snd d = Some (VErr "io.EOF" []))
+  \/ S_foreign_box_opens c p sk.
+Proof. exact (go_NewDecryptStream_drain_accepts_spec c Hc pm p sk hide i vd VV RING rd). Qed.
+
+Theorem C09_source_end_to_end_NewSigncryptOpenStream_drain_accepts_spec_box (c : crypto) (Hc : crypto_ok c) (p : S_sc) (sk : bytes) (i : nat) (signers : sigring) (rv : resolver)
+        (KR RV rd : gval) :
+  sc_params_ok c p ->
+  nth_error (sc_rcpts p) i = Some (S_BoxR (dh_pub c sk)) ->
+  (forall s, sc_signer p = Some s -> In (ed_pub c s) signers) ->
+  rdr_bytes rd = Some (S_encode_signcryption c p) ->
+  let kr := mkRing [(sk, dh_pub c sk)] None in
+  let sg := option_map (ed_pub c) (sc_signer p) in
+  (exists obj : gval,
+      fst (run_func2 (ext_nsos c kr signers rv) f_saltpack_NewSigncryptOpenStream [rd; KR; RV])
+      = ORet [g_signer sg; g_cr_new obj; VNil] /\
+      forall F, (List.length (S_encode_signcryption c p) < F)%nat -> (N.of_nat F <= 18446744073709551616)%N ->
+        let d := GoEndToEndAuth.go_drain (ext_chunk c TSigncryptionBlock) f_saltpack_signcryptOpenStream_getNextChunk "sos" F obj in
+        List.concat (fst d) = List.concat (sc_chunks p) /\ snd d = Some (VErr "io.EOF" []))
+  \/ S_identifier_collision c p sk i.
+Proof. exact (go_NewSigncryptOpenStream_drain_accepts_spec_box c Hc p sk i signers rv KR RV rd). Qed.
+
+Theorem C09_source_end_to_end_NewSigncryptOpenStream_drain_accepts_spec_sym (c : crypto) (Hc : crypto_ok c) (p : S_sc) (i : nat) (key ident : bytes) (rsl : list (bytes * bytes))
+        (signers : sigring) (KR RV rd : gval) :
+  sc_params_ok c p ->
+  nth_error (sc_rcpts p) i = Some (S_SymR key ident) ->
+  resolve rsl ident = Some key ->
+  S_resolver_genuine c rsl p ->
+  (forall s, sc_signer p = Some s -> In (ed_pub c s) signers) ->
+  rdr_bytes rd = Some (S_encode_signcryption c p) ->
+  let kr := mkRing [] None in
+  let sg := option_map (ed_pub c) (sc_signer p) in
+  exists obj : gval,
+    fst (run_func2 (ext_nsos c kr signers (Some rsl)) f_saltpack_NewSigncryptOpenStream [rd; KR; RV])
+    = ORet [g_signer sg; g_cr_new obj; VNil] /\
+    forall F, (List.length (S_encode_signcryption c p) < F)%nat -> (N.of_nat F <= 18446744073709551616)%N ->
+      let d := GoEndToEndAuth.go_drain (ext_chunk c TSigncryptionBlock) f_saltpack_signcryptOpenStream_getNextChunk "sos" F obj in
+      List.concat (fst d) = List.concat (sc_chunks p) /\ snd d = Some (VErr "io.EOF" []).
+Proof. exact (go_NewSigncryptOpenStream_drain_accepts_spec_sym c Hc p i key ident rsl signers KR RV rd). Qed.
+Local Close Scope string_scope.
+
+Print Assumptions C09_source_end_to_end_Verify_accepts_spec.
+Print Assumptions C09_source_end_to_end_NewVerifyStream_accepts_spec.
+Print Assumptions C09_source_end_to_end_VerifyDetached_accepts_spec.
+Print Assumptions C09_source_end_to_end_Open_accepts_spec.
+Print Assumptions C09_source_end_to_end_SigncryptOpen_accepts_spec_box.
+Print Assumptions C09_source_end_to_end_SigncryptOpen_accepts_spec_sym.
+Print Assumptions C09_source_end_to_end_NewDecryptStream_drain_of_model.
+Print Assumptions C09_source_end_to_end_NewSigncryptOpenStream_drain_of_model.
+Print Assumptions C09_source_end_to_end_NewDecryptStream_drain_accepts_spec.
+Print Assumptions C09_source_end_to_end_NewSigncryptOpenStream_drain_accepts_spec_box.
+Print Assumptions C09_source_end_to_end_NewSigncryptOpenStream_drain_accepts_spec_sym.
+
+
+
